@@ -164,7 +164,13 @@ var leaves = map[string]model.Expr{
 	"vf": model.Var{Name: "vf"},
 	// int64 family (own phases only: mixing int64 with int is not fixed by the statement)
 	"i5": model.Var{Name: "i5"}, "i2": model.Var{Name: "i2"}, "in4": model.Var{Name: "in4"}, "i0": model.Var{Name: "i0"},
+	// literals of several digits (phase Z only: what a literal spelled with leading zeros means)
+	"12": model.Lit{V: 12}, "64": model.Lit{V: 64}, "100": model.Lit{V: 100}, "123": model.Lit{V: 123}, "777": model.Lit{V: 777}, "1000": model.Lit{V: 1000},
+	"10.0": model.Lit{V: 10.0}, "12.5": model.Lit{V: 12.5}, "100.25": model.Lit{V: 100.25},
 }
+
+// zeroOnly: leaves that exist for phase Z and stay out of the other phases' pools
+var zeroOnly = map[string]bool{"12": true, "64": true, "100": true, "123": true, "777": true, "1000": true, "10.0": true, "12.5": true, "100.25": true}
 
 var i64Leaves = []string{"i5", "i2", "in4", "i0"}
 
@@ -1089,6 +1095,7 @@ func leaf(name string) *E { return &E{Leaf: name} }
 type gen struct {
 	t     *rapid.T
 	trace int
+	lits  bool // phase Z: numeric operands are literals only
 }
 
 func (g *gen) wrap(e *E) *E {
@@ -1114,8 +1121,14 @@ func (g *gen) typed(kind string, d int) *E {
 	if d <= 0 || rapid.IntRange(0, 4).Draw(t, "stop") == 0 {
 		switch kind {
 		case "int":
+			if g.lits {
+				return g.wrap(g.pick(zeroIntLeaves))
+			}
 			return g.wrap(g.pick(intLeaves))
 		case "float":
+			if g.lits {
+				return g.wrap(g.pick(zeroFloatLeaves))
+			}
 			return g.wrap(g.pick(floatLeaves))
 		case "string":
 			return g.wrap(g.pick(stringLeaves))
@@ -1172,7 +1185,7 @@ func (g *gen) typed(kind string, d int) *E {
 	return bin(rapid.SampledFrom(binOps).Draw(t, "op"), g.typed("any", d-1), g.typed("any", d-1))
 }
 
-const rule = "expression trees over a pool of int/float/string/bool/nil leaves (literals and variables, incl. negative numbers, a 2^53+1 integer as variable and as literal, literals 10 / 2^31 / the largest integer, the extreme integers as variables, floats whose printed form has an exponent (1000000.0, 123456789.0, 2.5e9, 0.00001, 1e-10), floats that are not exactly representable (0.1 0.2 0.3), minus zero, strings that look like numbers, truth values or operators, upper case, non-ASCII, an embedded quote, an unknown identifier) and the operators + - * / < <= > >= == != ~= && || ! and parentheses. (E) every tree of depth <=2 - all leaf pairs of the whole pool x 13 operators, !leaf, !!leaf, and both association shapes (a op1 b) op2 c / a op1 (b op2 c) over a 13-leaf (quick: 7-leaf) pool and five homogeneous pools; (F) FLAT unparenthesised sequences a o1 b o2 c o3 d for every operator triple x 8 (quick 6) operand rows, the tree being derived from the stated precedence order by a precedence-climbing parser of the check itself, and runs of 3..257 (thorough 3000) operands joined by one operator or the operators of one level; (N) redundant parentheses, repeated ! and right-nested chains to depth 400 (thorough 1500; beyond 64 levels a refusal with an error is accepted); (P) operands that are not literals or plain names: x[i], m[\"k\"], s.F, s.In.F, xs[i].F, f() - every pair x 13 operators and depth 2 over mixed spellings, with template variables named like the fields and keys present; (I) int64 variables: every pair x 13 operators and depth 2 (only trees whose integer leaves are all int64 are asserted); (the printed form of a float, in string + float and in emitted output, is what an output tag prints for that float: its spelling - exponent or plain decimals - is nobody's statement; in string + float both that form and Go's %v are accepted) (R) type-directed random trees to depth 5 in which every node is specified, plus deliberately ill-typed nodes that must be errors, with random redundant parentheses and operands wrapped in a recording helper t(i, x); typed random flat sequences of up to ~40 operands with negated operands and one ill-typed joint in ten. Every tree is printed with the minimal parentheses implied by the stated precedence/left-associativity and fully parenthesised, and (all of the small spaces, one in eight of the big depth-2 spaces) in one to six further SPELLINGS: operators glued to both operands, to the right one only (7 -2), to the left one only, two blanks / tab, line ends around every operator with back-quoted strings, every leaf in parentheses of its own, blanks inside parentheses and after !, float literals with a trailing zero (a minus sign is never glued to a preceding name: names may contain it); all spellings are rendered as <% cap(EXPR) %> and the captured typed Go value, the helper invocation order (left-to-right, short-circuit) and error-ness must equal the reference evaluator's. SITES: the same trees (all leaf pairs x 13 operators, all operator pairs in both shapes, random typed trees) as the operand of <%= %>, the right side of let and of assignment, an array element (first / last), a hash value, a second argument, the value returned by / the argument passed to a template function, the condition of if / else if / <%= if %>, an index, the element looped over, and three times in a row; output, captured values and helper order must equal the reference interpreter's for the whole template (values that are nil and trees naming the unknown identifier are left out: C10, C05). SEQUENCES: one expression over the variables p and q is evaluated 2-4 times (as the body of a template function called once per operand pair; inside a loop over the pairs; WRITTEN once per pair with p and q re-assigned in between; as one parsed template executed once per pair), the operand kinds changing from one evaluation to the next: (S1) p OP q for all 13 operators x every ordered pair (A, B) of 28 operand pairs that have a value - among them pairs of different kinds that print alike (2 2 / 2.0 2.0 / \"2\" \"2\") - evaluated A, B, A, and every value pair followed by every error pair; (SR) random shapes to depth 3 over p, q and literals with random rows; every captured value and the operand evaluation order must equal the reference evaluator's. Trees whose meaning the statement does not fix (bool==non-bool, string<non-string, string+nil, int overflow, float Inf/NaN, ~= on non-strings, int64 mixed with int) are counted under excluded:unspecified and not asserted. Non-trivial = depth >= 2 or an error outcome (every site and every sequence of >= 2 evaluations); distinct by minimal spelling / template text."
+const rule = "expression trees over a pool of int/float/string/bool/nil leaves (literals and variables, incl. negative numbers, a 2^53+1 integer as variable and as literal, literals 10 / 2^31 / the largest integer, the extreme integers as variables, floats whose printed form has an exponent (1000000.0, 123456789.0, 2.5e9, 0.00001, 1e-10), floats that are not exactly representable (0.1 0.2 0.3), minus zero, strings that look like numbers, truth values or operators, upper case, non-ASCII, an embedded quote, an unknown identifier) and the operators + - * / < <= > >= == != ~= && || ! and parentheses. (E) every tree of depth <=2 - all leaf pairs of the whole pool x 13 operators, !leaf, !!leaf, and both association shapes (a op1 b) op2 c / a op1 (b op2 c) over a 13-leaf (quick: 7-leaf) pool and five homogeneous pools; (F) FLAT unparenthesised sequences a o1 b o2 c o3 d for every operator triple x 8 (quick 6) operand rows, the tree being derived from the stated precedence order by a precedence-climbing parser of the check itself, and runs of 3..257 (thorough 3000) operands joined by one operator or the operators of one level; (N) redundant parentheses, repeated ! and right-nested chains to depth 400 (thorough 1500; beyond 64 levels a refusal with an error is accepted); (P) operands that are not literals or plain names: x[i], m[\"k\"], s.F, s.In.F, xs[i].F, f() - every pair x 13 operators and depth 2 over mixed spellings, with template variables named like the fields and keys present; (I) int64 variables: every pair x 13 operators and depth 2 (only trees whose integer leaves are all int64 are asserted); (the printed form of a float, in string + float and in emitted output, is what an output tag prints for that float: its spelling - exponent or plain decimals - is nobody's statement; in string + float both that form and Go's %v are accepted) (R) type-directed random trees to depth 5 in which every node is specified, plus deliberately ill-typed nodes that must be errors, with random redundant parentheses and operands wrapped in a recording helper t(i, x); typed random flat sequences of up to ~40 operands with negated operands and one ill-typed joint in ten. Every tree is printed with the minimal parentheses implied by the stated precedence/left-associativity and fully parenthesised, and (all of the small spaces, one in eight of the big depth-2 spaces) in one to six further SPELLINGS: operators glued to both operands, to the right one only (7 -2), to the left one only, two blanks / tab, line ends around every operator with back-quoted strings, every leaf in parentheses of its own, blanks inside parentheses and after !, float literals with a trailing zero (a minus sign is never glued to a preceding name: names may contain it); all spellings are rendered as <% cap(EXPR) %> and the captured typed Go value, the helper invocation order (left-to-right, short-circuit) and error-ness must equal the reference evaluator's. SITES: the same trees (all leaf pairs x 13 operators, all operator pairs in both shapes, random typed trees) as the operand of <%= %>, the right side of let and of assignment, an array element (first / last), a hash value, a second argument, the value returned by / the argument passed to a template function, the condition of if / else if / <%= if %>, an index, the element looped over, and three times in a row; output, captured values and helper order must equal the reference interpreter's for the whole template (values that are nil and trees naming the unknown identifier are left out: C10, C05). SEQUENCES: one expression over the variables p and q is evaluated 2-4 times (as the body of a template function called once per operand pair; inside a loop over the pairs; WRITTEN once per pair with p and q re-assigned in between; as one parsed template executed once per pair), the operand kinds changing from one evaluation to the next: (S1) p OP q for all 13 operators x every ordered pair (A, B) of 28 operand pairs that have a value - among them pairs of different kinds that print alike (2 2 / 2.0 2.0 / \"2\" \"2\") - evaluated A, B, A, and every value pair followed by every error pair; (SR) random shapes to depth 3 over p, q and literals with random rows; every captured value and the operand evaluation order must equal the reference evaluator's. (Z) LEADING ZEROS: the statement documents decimal numbers only (no octal or other notation, no negative literals, no exponent / hex / digit separators: none of these is generated), so a numeric literal spelled with leading zeros (010, 007, 00, 0123, 01.5, up to 40 zeros) and, for floats, further trailing zeros (1.50, 01.500) either means what it means without them or is refused with an error: the same tree is spelled with such literals and compared with the reference value of the UNPADDED tree - a successful render must give exactly that value and operand order, a refusal is accepted and counted (class .../refused with an error), and where the reference says error (010 / 00, 010 + true) the render must fail. (Z0) each of 22 numeric literals (ints of 1..19 digits incl. 10 12 64 100 123 777 1000, floats incl. 10.0 12.5 100.25) alone, negated, parenthesised x 8 pad widths x 0..2 trailing zeros; (Z1) every pair of a 28-leaf pool with a numeric literal on at least one side x 13 operators x 6 pad patterns (left only, right only, both, unequal, 25 zeros), the spelling rotating over minimal / full parentheses and the six further spellings (glued 7-010, 7 -010, tabs, line ends, (010)); (Z2) flat a o1 b o2 c o3 d for all 13^3 operator triples x 4 numeric rows; (Z3) numeric literal pairs x 13 operators and each literal alone at all 15 sites (<%= 010 %>, let, array element, hash value, argument, index, loop element ...); (ZR) random typed trees to depth 4 whose numeric operands are literals, one in four at a site, and random flat sequences, with random pad widths per literal, trailing zeros and spelling. Non-trivial for Z = at least one literal carries a leading zero (other cases are dropped and counted), distinct by template text. Trees whose meaning the statement does not fix (bool==non-bool, string<non-string, string+nil, int overflow, float Inf/NaN, ~= on non-strings, int64 mixed with int) are counted under excluded:unspecified and not asserted. Non-trivial = depth >= 2 or an error outcome (every site and every sequence of >= 2 evaluations); distinct by minimal spelling / template text."
 
 // engineFloatText: the printed form of a float is what an output tag prints for it (no statement fixes its spelling);
 // "string + x concatenates the printed form of x" is judged against that.
@@ -1236,6 +1249,16 @@ func setup(t *testing.T) *vk.Run {
 		}
 		return checkSeq(r, c, "replay")
 	})
+	r.Replayer("zeros", func(raw json.RawMessage) *vk.Fail {
+		var c ZCase
+		if f := vk.Decode(raw, &c); f != nil {
+			return f
+		}
+		if !c.valid() {
+			return &vk.Fail{Kind: "decode", Msg: "malformed leading-zeros case"}
+		}
+		return checkZero(r, c, "replay")
+	})
 	return r
 }
 
@@ -1253,7 +1276,7 @@ func TestProp(t *testing.T) {
 	// depth 1: every leaf pair over the whole pool, and !leaf
 	var all []string
 	for k := range leaves {
-		if !isI64(k) && !isPath(k) {
+		if !isI64(k) && !isPath(k) && !zeroOnly[k] {
 			all = append(all, k)
 		}
 	}
@@ -1325,6 +1348,7 @@ func TestProp(t *testing.T) {
 	i64Phases(r)
 	pathPhases(r)
 	sitePhases(r)
+	zeroPhases(r)
 
 	r.Rapid("typed-trees", r.Pick(8000, 120000), func(t *rapid.T) *vk.Fail {
 		g := &gen{t: t}
@@ -1746,4 +1770,302 @@ func sortStrings(s []string) {
 			s[j-1], s[j] = s[j], s[j-1]
 		}
 	}
+}
+
+// ---- numeric literals spelled with leading zeros (phase Z) -------------------------------------
+
+// ZCase: an expression whose numeric literals are respelled with leading zeros (010, 007, 00, 01.5) and, for floats,
+// further trailing zeros (1.50). The statement knows decimal numbers only - no octal or any other notation is
+// documented - so such a literal either means what it means without the zeros or is refused with an error. The oracle
+// is the reference value of the UNPADDED tree: a render that succeeds must yield exactly that value; a refusal is
+// accepted and counted; where the reference says error (010 / 00) the render must fail too.
+type ZCase struct {
+	Expr  E      `json:"expr"`
+	Pads  []int  `json:"pads"`            // leading zeros of the k-th numeric literal, in reading order (cyclic)
+	Trail []int  `json:"trail,omitempty"` // further trailing zeros of the k-th numeric literal if it is a float (cyclic)
+	Style int    `json:"style"`           // 0 minimal parentheses, 1 full parentheses, 2+k: styles[k]
+	Site  string `json:"site,omitempty"`  // "": <% cap(EXPR) %>; otherwise one of sites (Style 0 or 1)
+}
+
+var (
+	zeroIntLeaves   = []string{"0", "1", "2", "7", "10", "12", "64", "100", "123", "777", "1000", "2147483648", "9223372036854775807"}
+	zeroFloatLeaves = []string{"1.5", "0.0", "2.0", "0.1", "0.5", "10.0", "12.5", "100.25", "1000000.0"}
+	zeroOtherLeaves = []string{`"a"`, `"10"`, "true", "n3", "nf", "nil"}
+	zeroPads        = [][]int{{1, 0}, {0, 1}, {1, 1}, {2, 1}, {3, 0}, {0, 25}}
+)
+
+func (c *ZCase) valid() bool {
+	if !c.Expr.valid() || c.Style < 0 || c.Style >= 2+len(styles) || len(c.Pads) == 0 {
+		return false
+	}
+	if c.Site != "" && (!validSite(c.Site) || c.Style > 1) {
+		return false
+	}
+	for _, p := range append(append([]int{}, c.Pads...), c.Trail...) {
+		if p < 0 || p > 64 {
+			return false
+		}
+	}
+	return true
+}
+
+// respell: x with every numeric literal replaced by a name that prints as the padded spelling (every printer and
+// style writes a name down as it is). *k counts numeric literals in reading order, *padded those given a leading zero.
+func (c *ZCase) respell(x model.Expr, k, padded *int) model.Expr {
+	switch t := x.(type) {
+	case model.Lit:
+		_, isInt := t.V.(int)
+		_, isFloat := t.V.(float64)
+		if !isInt && !isFloat {
+			return x
+		}
+		i := *k
+		*k++
+		txt := model.Printer{}.Expr(t)
+		if pad := c.Pads[i%len(c.Pads)]; pad > 0 {
+			txt = strings.Repeat("0", pad) + txt
+			*padded++
+		}
+		if isFloat && len(c.Trail) > 0 {
+			txt += strings.Repeat("0", c.Trail[i%len(c.Trail)])
+		}
+		return model.Var{Name: txt}
+	case model.Paren:
+		return model.Paren{X: c.respell(t.X, k, padded)}
+	case model.Not:
+		return model.Not{X: c.respell(t.X, k, padded)}
+	case model.Bin:
+		l := c.respell(t.L, k, padded)
+		return model.Bin{Op: t.Op, L: l, R: c.respell(t.R, k, padded)}
+	case model.Call:
+		if t.Fn == "t" && len(t.Args) == 2 { // the recording helper: its number is not an operand
+			return model.Call{Fn: "t", Args: []model.Expr{t.Args[0], c.respell(t.Args[1], k, padded)}}
+		}
+	}
+	return x
+}
+
+func checkZero(r *vk.Run, c ZCase, class string) *vk.Fail {
+	defer r.Watch("zeros", c)()
+	x := c.Expr.toModel()
+	k, padded := 0, 0
+	xz := c.respell(x, &k, &padded)
+	if padded == 0 {
+		r.Exclude("no literal with a leading zero")
+		return nil
+	}
+	fail := func(src, f string, a ...interface{}) *vk.Fail {
+		return &vk.Fail{Kind: "zeros", Case: c, Msg: fmt.Sprintf("%q (literals respelled with leading zeros; the same text without them is %q): ", src, model.Printer{}.Expr(x)) + fmt.Sprintf(f, a...)}
+	}
+	done := func(src, outcome string, sample func() interface{}) *vk.Fail {
+		r.Count("Z|"+src, class+"/"+outcome)
+		r.Sample(sample)
+		return nil
+	}
+	if c.Site == "" {
+		want, unspec := runModelWith(x, modelDataFor(&c.Expr, map[string]interface{}{}))
+		if unspec != "" {
+			r.Exclude("unspecified")
+			return nil
+		}
+		var spelled string
+		switch c.Style {
+		case 0:
+			spelled = model.Printer{}.Expr(xz)
+		case 1:
+			spelled = model.Printer{FullParens: true}.Expr(xz)
+		default:
+			spelled = styles[c.Style-2].expr(xz, 0)
+			r.Class("zeros/spelling/" + styles[c.Style-2].Name)
+		}
+		src := "<% cap(" + spelled + ") %>"
+		got, res := runPlush(src, dataFor(&c.Expr, map[string]interface{}{}), strings.Contains(spelled, "()"))
+		sample := func() interface{} {
+			return map[string]interface{}{"template": src, "without_zeros": model.Printer{}.Expr(x), "reference": fmt.Sprintf("%v err=%v", want.val, want.isErr), "render_error": fmt.Sprint(res.Err)}
+		}
+		switch {
+		case res.Panicked():
+			return fail(src, "%s", res)
+		case want.isErr && !got.isErr:
+			return fail(src, "reference says this is an error, render succeeded with value %s", model.Describe(got.val))
+		case want.isErr:
+			if res.Out != "" {
+				return fail(src, "error with non-empty output %q", res.Out)
+			}
+			return done(src, "error", sample)
+		case got.isErr:
+			// no notation with leading zeros is documented: refusing the literal is as right as reading it as decimal
+			return done(src, "refused with an error", sample)
+		}
+		if !sameVal(got.val, want.val) && floatFormsDiffer() {
+			if alt, u := runModelOpt(x, modelDataFor(&c.Expr, map[string]interface{}{}), true); u == "" && !alt.isErr && sameVal(got.val, alt.val) {
+				return done(src, "value", sample)
+			}
+		}
+		if !sameVal(got.val, want.val) {
+			return fail(src, "value %s, the decimal reading gives %s", model.Describe(got.val), model.Describe(want.val))
+		}
+		if !reflect.DeepEqual(got.trace, want.trace) {
+			return fail(src, "operands evaluated in order %v, reference says %v", got.trace, want.trace)
+		}
+		if res.Out != "" {
+			return fail(src, "a code tag produced output %q", res.Out)
+		}
+		return done(src, fmt.Sprintf("value %T", want.val), sample)
+	}
+	// at a site: the whole template against the reference interpreter run on the unpadded tree
+	if o, unspec := runModel(x); unspec != "" || (!o.isErr && o.val == nil) || c.Expr.hasLeaf("unk") {
+		r.Exclude("unspecified")
+		return nil
+	}
+	prog := siteProg(c.Site, x)
+	var want seqRun
+	ref := model.Run(prog, data, want.helpers())
+	if ref.Unspec != "" {
+		r.Exclude("unspecified")
+		return nil
+	}
+	src := model.Printer{FullParens: c.Style == 1}.Nodes(siteProg(c.Site, xz))
+	var got seqRun
+	res := vk.Safe(func() (string, error) { return plush.Render(src, model.Context(plushData(data), got.helpers())) })
+	sample := func() interface{} {
+		return map[string]interface{}{"template": src, "without_zeros": model.Printer{}.Nodes(prog), "reference_output": ref.Out, "reference_values": fmt.Sprint(want.vals), "reference_error": ref.Err, "render_error": fmt.Sprint(res.Err)}
+	}
+	switch {
+	case res.Panicked():
+		return fail(src, "%s", res)
+	case ref.Err != "" && res.Err == nil:
+		return fail(src, "reference says this is an error (%s), render succeeded with output %q and values %v", ref.Err, res.Out, got.vals)
+	case ref.Err != "":
+		if res.Out != "" {
+			return fail(src, "error with non-empty output %q", res.Out)
+		}
+		return done(src, c.Site+"/error", sample)
+	case res.Err != nil:
+		return done(src, c.Site+"/refused with an error", sample)
+	}
+	if altSeqAgrees(prog, data, got, res.Out, true) {
+		return done(src, c.Site+"/value", sample)
+	}
+	if html.UnescapeString(res.Out) != html.UnescapeString(ref.Out) {
+		return fail(src, "output %q, the decimal reading gives %q", res.Out, ref.Out)
+	}
+	if len(got.vals) != len(want.vals) {
+		return fail(src, "%d values captured %v, reference says %d %v", len(got.vals), got.vals, len(want.vals), want.vals)
+	}
+	for i := range want.vals {
+		if !sameVal(got.vals[i], want.vals[i]) {
+			return fail(src, "value %d is %s, the decimal reading gives %s", i+1, model.Describe(got.vals[i]), model.Describe(want.vals[i]))
+		}
+	}
+	if !reflect.DeepEqual(got.trace, want.trace) {
+		return fail(src, "operands evaluated in order %v, reference says %v", got.trace, want.trace)
+	}
+	return done(src, c.Site+"/value", sample)
+}
+
+func zeroPhases(r *vk.Run) {
+	nst := int64(2 + len(styles))
+	var nums []string
+	nums = append(append(nums, zeroIntLeaves...), zeroFloatLeaves...)
+	pool := append(append([]string{}, nums...), zeroOtherLeaves...)
+	nn, np, no, npad := int64(len(nums)), int64(len(pool)), int64(len(binOps)), int64(len(zeroPads))
+	// Z0: one literal alone, !literal, (literal): every pad 1..4, 8, 19, 25, 40; floats with 0..2 further trailing zeros
+	pads1 := []int{1, 2, 3, 4, 8, 19, 25, 40}
+	n0 := nn * int64(len(pads1)) * 3 * 3
+	r.Subspace(fmt.Sprintf("leading zeros: each of %d numeric literals alone / negated / parenthesised x %d pad widths (1..40 zeros) x 0..2 further trailing zeros on floats", nn, len(pads1)), n0, true)
+	r.Parallel(n0, 0, func(i int64) {
+		trail := int(i % 3)
+		i /= 3
+		shape := i % 3
+		i /= 3
+		pad := pads1[i%int64(len(pads1))]
+		st := int((i%int64(len(pads1)) + i/int64(len(pads1)) + shape + int64(trail)) % nst)
+		e := leaf(nums[i/int64(len(pads1))])
+		switch shape {
+		case 1:
+			e = &E{Not: e}
+		case 2:
+			e = &E{Paren: e}
+		}
+		r.Check(checkZero(r, ZCase{Expr: *e, Pads: []int{pad}, Trail: []int{trail}, Style: st}, "Z0"))
+	})
+	// Z1: every pair with a numeric literal on at least one side x 13 operators x 6 pad patterns, the spelling rotating
+	n1 := np * np * no * npad
+	r.Subspace(fmt.Sprintf("leading zeros: every pair of a %d-leaf pool (%d numeric literals of 1..19 digits, ints and floats) with a numeric literal on at least one side x 13 operators x %d pad patterns, spelling rotating over minimal / full parentheses and the %d further spellings", np, nn, npad, len(styles)), (np*np-int64(len(zeroOtherLeaves)*len(zeroOtherLeaves)))*no*npad, true)
+	r.Parallel(n1, 0, func(i int64) {
+		pads := zeroPads[i%npad]
+		i /= npad
+		st := int(i % nst)
+		op := binOps[i%no]
+		i /= no
+		a, b := i%np, i/np
+		if a >= nn && b >= nn {
+			return
+		}
+		if a >= nn || b >= nn { // one numeric literal only: it takes the pattern's whole width
+			pads = []int{pads[0] + pads[1]}
+		}
+		r.Check(checkZero(r, ZCase{Expr: E{Op: op, L: leaf(pool[a]), R: leaf(pool[b])}, Pads: pads, Style: st}, "Z1"))
+	})
+	// Z2: flat sequences a o1 b o2 c o3 d over numeric rows, every operator triple
+	rows := [][4]string{{"10", "2", "12", "7"}, {"100", "10", "64", "12"}, {"10.0", "0.5", "12.5", "2.0"}, {"1000", "123", "10", "777"}}
+	pads4 := [][]int{{1}, {1, 0, 2, 0}, {0, 1, 0, 3}, {2, 2, 1, 1}}
+	n2 := no * no * no * int64(len(rows))
+	r.Subspace(fmt.Sprintf("leading zeros: flat a o1 b o2 c o3 d, 13^3 operator triples x %d numeric rows, pad pattern and spelling rotating", len(rows)), n2, true)
+	r.Parallel(n2, 0, func(i int64) {
+		row := rows[i%int64(len(rows))]
+		j := i / int64(len(rows))
+		ops := []string{binOps[j%no], binOps[(j/no)%no], binOps[j/no/no]}
+		c := flatCase([]*E{leaf(row[0]), leaf(row[1]), leaf(row[2]), leaf(row[3])}, ops)
+		st := int(j % nst)
+		if st == 1 {
+			st = 0 // a flat sequence has no parentheses
+		}
+		r.Check(checkZero(r, ZCase{Expr: c.Expr, Pads: pads4[(i/3)%int64(len(pads4))], Style: st}, "Z2"))
+	})
+	// Z3: sites
+	sp := []string{"0", "7", "10", "12", "100", "123", "10.0", "0.5"}
+	ns, nsp := int64(len(sites)), int64(len(sp))
+	n3 := nsp * nsp * no * ns
+	r.Subspace(fmt.Sprintf("leading zeros at sites: %d^2 numeric literal pairs x 13 operators x %d sites, plus every numeric literal alone x %d sites x 4 pad widths", nsp, ns, ns), n3+nn*ns*4, true)
+	r.Parallel(n3, 0, func(i int64) {
+		site := sites[i%ns]
+		i /= ns
+		st := int(i % 2)
+		pads := zeroPads[(i/2)%npad]
+		op := binOps[i%no]
+		i /= no
+		r.Check(checkZero(r, ZCase{Expr: E{Op: op, L: leaf(sp[i%nsp]), R: leaf(sp[i/nsp])}, Pads: pads, Style: st, Site: site}, "Z3"))
+	})
+	r.Parallel(nn*ns*4, 0, func(i int64) {
+		pad := []int{1, 2, 3, 25}[i%4]
+		i /= 4
+		r.Check(checkZero(r, ZCase{Expr: *leaf(nums[i/ns]), Pads: []int{pad}, Style: 0, Site: sites[i%ns]}, "Z3"))
+	})
+	// ZR: random typed trees and flat sequences whose numeric operands are literals, random pads, trailing zeros, spelling
+	draw := func(t *rapid.T) ([]int, []int, int) {
+		pads := rapid.SliceOfN(rapid.SampledFrom([]int{0, 1, 1, 1, 2, 2, 3, 5, 12, 25}), 1, 6).Draw(t, "pads")
+		trail := rapid.SliceOfN(rapid.IntRange(0, 3), 1, 3).Draw(t, "trail")
+		return pads, trail, rapid.IntRange(0, 1+len(styles)).Draw(t, "style")
+	}
+	r.Rapid("zeros-typed-trees", r.Pick(4000, 60000), func(t *rapid.T) *vk.Fail {
+		g := &gen{t: t, lits: true}
+		kind := rapid.SampledFrom([]string{"int", "int", "float", "string", "bool", "any"}).Draw(t, "kind")
+		e := g.typed(kind, rapid.IntRange(1, 4).Draw(t, "depth"))
+		pads, trail, st := draw(t)
+		c := ZCase{Expr: *e, Pads: pads, Trail: trail, Style: st}
+		if rapid.IntRange(0, 3).Draw(t, "atsite") == 0 {
+			c.Site, c.Style = rapid.SampledFrom(sites).Draw(t, "site"), st%2
+		}
+		return checkZero(r, c, "ZR")
+	})
+	r.Rapid("zeros-flat-sequences", r.Pick(1500, 20000), func(t *rapid.T) *vk.Fail {
+		ls, ops := (&gen{t: t}).flat()
+		pads, trail, st := draw(t)
+		if st == 1 {
+			st = 0
+		}
+		return checkZero(r, ZCase{Expr: flatCase(ls, ops).Expr, Pads: pads, Trail: trail, Style: st}, "ZRF")
+	})
 }
